@@ -416,10 +416,18 @@ pub fn run(cfg: &Cfg, rep: &mut Report) {
     if let Some(range) = cfg.extra.get("child") {
         // child process: print the digest of programs start..start+count of the parent's shard
         let mut it = range.split(':').filter_map(|x| x.parse::<u64>().ok());
-        let (start, count) = (it.next().unwrap_or(0), it.next().unwrap_or(0));
+        let (start, count, order) = (it.next().unwrap_or(0), it.next().unwrap_or(0), it.next().unwrap_or(0));
         let stdout = std::io::stdout();
         let mut w = stdout.lock();
-        for i in start..start + count {
+        // the programs of the batch in another order than the parent ran them (what one program leaves behind in the
+        // process must not matter to the next): 0 = same order, 1 = reversed, 2 = odd indices first
+        let mut idxs: Vec<u64> = (start..start + count).collect();
+        match order {
+            1 => idxs.reverse(),
+            2 => idxs.sort_by_key(|i| (i % 2 == 0, *i)),
+            _ => {}
+        }
+        for i in idxs {
             let (d, _) = digest(&program(cfg.seed, cfg.shard, i));
             let _ = writeln!(w, "{i}\t{:016x}\t{}", hash64(&d), d.replace(['\n', '\t'], " "));
         }
@@ -500,7 +508,7 @@ pub fn run(cfg: &Cfg, rep: &mut Report) {
         if let Some(exe) = &exe {
             for child in 0..p {
                 let out = std::process::Command::new(exe)
-                    .args(["C05", "--seed", &cfg.seed.to_string(), "--shard", &cfg.shard.to_string(), "--nshards", &cfg.nshards.to_string(), "--out", "/dev/null", "--opt", &format!("child={start}:{count}")])
+                    .args(["C05", "--seed", &cfg.seed.to_string(), "--shard", &cfg.shard.to_string(), "--nshards", &cfg.nshards.to_string(), "--out", "/dev/null", "--opt", &format!("child={start}:{count}:{}", child % 3)])
                     .output();
                 let Ok(out) = out else {
                     rep.inconclusive("child-process-failed-to-start");
